@@ -318,8 +318,16 @@ func registerCrypto(p *Program) {
 		st.hmacs[c] = &hmacInst{key: key}
 		return IfaceV{T: t, V: PtrV{C: c}}
 	})
+	p.reg("(*crypto/hmac.hmac).Reset", func(e *Exec, g *G, a []Value) Value {
+		st := e.aeadSt()
+		c := a[0].(PtrV).C
+		e.access(c, nil, true) // the hash state is ordinary shared memory
+		st.hmacs[c].data = nil
+		return nil
+	})
 	p.reg("(*crypto/hmac.hmac).Write", func(e *Exec, g *G, a []Value) Value {
 		st := e.aeadSt()
+		e.access(a[0].(PtrV).C, nil, true)
 		h := st.hmacs[a[0].(PtrV).C]
 		d := e.sliceTerms(a[1].(SliceV))
 		h.data = append(h.data, d...)
@@ -327,6 +335,7 @@ func registerCrypto(p *Program) {
 	})
 	p.reg("(*crypto/hmac.hmac).Sum", func(e *Exec, g *G, a []Value) Value {
 		st := e.aeadSt()
+		e.access(a[0].(PtrV).C, nil, true) // Sum runs the inner and outer hashes in place
 		h := st.hmacs[a[0].(PtrV).C]
 		out := make([]*Term, 20)
 		kb, kok := concBytes(h.key)
